@@ -913,7 +913,7 @@ theorem c10_power_limit_off_up (P : RsP) (hfo : P.fo = 0) (s : RsT) (dts : List 
 
 /-! ### the power limit for facade blinds, both directions -/
 
-theorem movePos_nofull' (c : MvCfg) (m : Mv) (h : c.fullMs = 0) : movePos c m = m := by
+theorem movePos_nofull_any (c : MvCfg) (m : Mv) (h : c.fullMs = 0) : movePos c m = m := by
   unfold movePos; simp [h]
 
 def FbPlain (s : FbT) : Prop :=
@@ -928,7 +928,7 @@ theorem fb_plain_tick (P : FbP) (hfc : P.fc = 0) (s : FbT) (dt : Nat) (h : FbPla
   · have hacc : fbAccount P s dt = { s with downT := s.downT + dt, upT := 0 } := by
       unfold fbAccount
       rw [if_neg (by omega), if_pos hrel]
-      have hm : ∀ m, movePos (P.mv false) m = m := fun m => movePos_nofull' _ m (by simp [FbP.mv, hfc])
+      have hm : ∀ m, movePos (P.mv false) m = m := fun m => movePos_nofull_any _ m (by simp [FbP.mv, hfc])
       simp only [hfc, fbCalibrate, hm]
       simp [hrel]
     have htask : fbTaskStep P (fbAccount P s dt) = fbAccount P s dt := by
@@ -1018,7 +1018,7 @@ theorem fb_plain_tick_up (P : FbP) (hfo : P.fo = 0) (s : FbT) (dt : Nat) (h : Fb
   · have hacc : fbAccount P s dt = { s with upT := s.upT + dt, downT := 0 } := by
       unfold fbAccount
       rw [if_pos hrel]
-      have hm : ∀ m, movePos (P.mv true) m = m := fun m => movePos_nofull' _ m (by simp [FbP.mv, hfo])
+      have hm : ∀ m, movePos (P.mv true) m = m := fun m => movePos_nofull_any _ m (by simp [FbP.mv, hfo])
       simp only [hfo, fbCalibrate, hm]
       simp [hrel]
     have htask : fbTaskStep P (fbAccount P s dt) = fbAccount P s dt := by
